@@ -25,14 +25,19 @@ theorem code_is_repaired (app : App) : codeStep app = step app := by
 
 /-- a credential check for `u` succeeded on this connection, or the application declared that `u` needs none -/
 def Granted (app : App) (log : List Call) (u : Nat) : Prop :=
-  app.needsAuth u = false ∨ (∃ c, Call.checkPw u c true ∈ log) ∨ (∃ k, Call.checkKey u u k true (some true) ∈ log)
+  app.needsAuth u = false ∨ (∃ c, Call.checkPw u c true ∈ log) ∨ (∃ k, Call.checkKey u u k true (some true) ∈ log) ∨
+  (∃ c, Call.checkChPw u c true ∈ log) ∨ (∃ c, Call.checkHost u c true true (some true) ∈ log) ∨
+  (∃ r, Call.kbd u r .accept ∈ log)
 
 theorem granted_mono (app : App) (log extra : List Call) (u : Nat) (h : Granted app log u) :
     Granted app (log ++ extra) u := by
-  rcases h with h | ⟨c, h⟩ | ⟨k, h⟩
+  rcases h with h | ⟨c, h⟩ | ⟨k, h⟩ | ⟨c, h⟩ | ⟨c, h⟩ | ⟨r, h⟩
   · exact Or.inl h
   · exact Or.inr (Or.inl ⟨c, List.mem_append_left _ h⟩)
-  · exact Or.inr (Or.inr ⟨k, List.mem_append_left _ h⟩)
+  · exact Or.inr (Or.inr (Or.inl ⟨k, List.mem_append_left _ h⟩))
+  · exact Or.inr (Or.inr (Or.inr (Or.inl ⟨c, List.mem_append_left _ h⟩)))
+  · exact Or.inr (Or.inr (Or.inr (Or.inr (Or.inl ⟨c, List.mem_append_left _ h⟩))))
+  · exact Or.inr (Or.inr (Or.inr (Or.inr (Or.inr ⟨r, List.mem_append_left _ h⟩))))
 
 structure Inv (app : App) (s : St) : Prop where
   authUser : ∀ a, s.auth = some a → s.username = some a.user
@@ -75,26 +80,34 @@ theorem sendFailure_inv (app : App) (s : St) (h : Inv app s) : Inv app (sendFail
   exact ⟨(by intro a ha; cases ha), h.taskUser, h.seqs, (by intro a ha; cases ha), (by intro t ht hs; rfl), h.uniq, h.done⟩
 
 theorem createAuth_inv (app : App) (s : St) (r : Req) (h : Inv app s) (hb : s.begun = s.username)
-    (hnp : ∀ t ∈ s.tasks, t.seq ≠ s.seq) : Inv app (createAuth s r) := by
+    (hnp : ∀ t ∈ s.tasks, t.seq ≠ s.seq) : Inv app (createAuth app s r) := by
   unfold createAuth
   split
   · exact h
   · split
     · exact h
     · rename_i u hu
+      have hnew : ∀ a : AuthObj, a.user = u → Inv app { s with auth := some a, nVal := s.nVal + 1 } := by
+        intro a0 ha0
+        refine ⟨?_, h.taskUser, h.seqs, ?_, ?_, h.uniq, h.done⟩
+        · intro a ha
+          simp only [Option.some.injEq] at ha
+          subst ha
+          rw [ha0]; exact hu
+        · intro a ha
+          simp only [Option.some.injEq] at ha
+          subst ha
+          simp only; rw [hb, hu, ha0]
+        · intro t ht hs; exact absurd hs (hnp t ht)
       split
       · exact sendFailure_inv app s h
       · exact sendFailure_inv app s h
-      · refine ⟨?_, h.taskUser, h.seqs, ?_, ?_, h.uniq, h.done⟩
-        · intro a ha
-          simp only [Option.some.injEq] at ha
-          subst ha
-          exact hu
-        · intro a ha
-          simp only [Option.some.injEq] at ha
-          subst ha
-          simp only; rw [hb, hu]
-        · intro t ht hs; exact absurd hs (hnp t ht)
+      · split
+        · exact hnew _ rfl
+        · apply sendFailure_inv
+          exact ⟨h.authUser, h.taskUser, h.seqs, h.authBegun, h.parkedNoAuth, h.uniq,
+            fun v hc => granted_mono app _ _ v (h.done v hc)⟩
+      · exact hnew _ rfl
 
 theorem afterBegin_inv (app : App) (s : St) (cu : Nat) (r : Req) (h : Inv app s)
     (hcu : s.username = some cu) (hna : s.auth = none) (hnp : ∀ t ∈ s.tasks, t.seq ≠ s.seq) :
@@ -220,36 +233,82 @@ theorem onValDone_inv (app : App) (s : St) (k : Nat) (h : Inv app s) : Inv app (
       have hlog : ∀ extra, Inv app { s with log := s.log ++ extra } := fun extra =>
         ⟨h.authUser, h.taskUser, h.seqs, h.authBegun, h.parkedNoAuth, h.uniq,
           fun u hc => granted_mono app _ _ u (h.done u hc)⟩
+      -- the object stays installed, no longer awaiting (PK_OK, PASSWD_CHANGEREQ, INFO_REQUEST sent)
+      have hstay : ∀ (extra : List Call) (out : List Reply),
+          Inv app { s with log := s.log ++ extra, out := out, auth := some { a with awaiting := false } } := by
+        intro extra out
+        have hb := hlog extra
+        refine ⟨?_, hb.taskUser, hb.seqs, ?_, ?_, hb.uniq, hb.done⟩
+        · intro a' ha'
+          simp only [Option.some.injEq] at ha'
+          subst ha'
+          exact hu
+        · intro a' ha'
+          simp only [Option.some.injEq] at ha'
+          subst ha'
+          exact h.authBegun a ha
+        · intro t ht hs
+          have := h.parkedNoAuth t ht hs
+          rw [ha] at this; cases this
+      -- success is justified by a record for the connection's user
+      have hsucc : ∀ (extra : List Call), Granted app (s.log ++ extra) a.user →
+          Inv app (sendSuccess { s with log := s.log ++ extra }) := by
+        intro extra hg
+        apply sendSuccess_inv app _ (hlog _)
+        intro u huu
+        simp only at huu
+        rw [hu] at huu
+        simp only [Option.some.injEq] at huu
+        subst huu
+        exact hg
       split
       · -- password
+        split
+        · have := hstay [] (s.out ++ [.changeReq])
+          simpa using this
+        · dsimp only
+          split
+          · rename_i hok
+            apply hsucc
+            right; left
+            exact ⟨a.req.cred, by simp [hok]⟩
+          · exact sendFailure_inv app _ (hlog _)
+      · -- password change
+        split
+        · have := hstay [] (s.out ++ [.changeReq])
+          simpa using this
+        · dsimp only
+          split
+          · rename_i hok
+            apply hsucc
+            right; right; right; left
+            exact ⟨a.req.cred, by simp [hok]⟩
+          · exact sendFailure_inv app _ (hlog _)
+      · -- hostbased
+        rename_i sigOK _
         dsimp only
         split
         · rename_i hok
-          apply sendSuccess_inv app _ (hlog _)
-          intro u huu
-          simp only at huu
-          rw [hu] at huu
-          simp only [Option.some.injEq] at huu
-          subst huu
-          right; left
-          exact ⟨a.req.cred, by simp [hok]⟩
+          have hok' : (app.hostKeyOK a.req.cred = true ∧ sigOK = true) ∧ app.hostUserOK a.user a.req.cred = true := by
+            simpa using hok
+          apply hsucc
+          right; right; right; right; left
+          refine ⟨a.req.cred, ?_⟩
+          simp [hok'.1.1, hok'.1.2, hok'.2]
         · exact sendFailure_inv app _ (hlog _)
+      · -- keyboard-interactive
+        dsimp only
+        split
+        · rename_i hans
+          apply hsucc
+          right; right; right; right; right
+          exact ⟨a.resp, by simp [hans]⟩
+        · exact sendFailure_inv app _ (hlog _)
+        · exact hstay _ _
       · -- publickey probe
         dsimp only
         split
-        · have hb := hlog [Call.checkKey (keyCtx app s a) a.user a.req.cred (app.keyOK (keyCtx app s a) a.req.cred) none]
-          refine ⟨?_, hb.taskUser, hb.seqs, ?_, ?_, hb.uniq, hb.done⟩
-          · intro a' ha'
-            simp only [Option.some.injEq] at ha'
-            subst ha'
-            exact hu
-          · intro a' ha'
-            simp only [Option.some.injEq] at ha'
-            subst ha'
-            exact h.authBegun a ha
-          · intro t ht hs
-            have := h.parkedNoAuth t ht hs
-            rw [ha] at this; cases this
+        · exact hstay _ _
         · exact sendFailure_inv app _ (hlog _)
       · -- publickey with signature
         rename_i sigOK _
@@ -257,18 +316,43 @@ theorem onValDone_inv (app : App) (s : St) (k : Nat) (h : Inv app s) : Inv app (
         split
         · rename_i hok
           have hok' : app.keyOK (keyCtx app s a) a.req.cred = true ∧ sigOK = true := by simpa using hok
-          apply sendSuccess_inv app _ (hlog _)
-          intro u huu
-          simp only at huu
-          rw [hu] at huu
-          simp only [Option.some.injEq] at huu
-          subst huu
-          right; right
+          apply hsucc
+          right; right; left
           refine ⟨a.req.cred, ?_⟩
           rw [hctx] at hok' ⊢
           simp [hok'.1, hok'.2]
         · exact sendFailure_inv app _ (hlog _)
       · exact h
+
+theorem onInfo_inv (app : App) (s : St) (c : Nat) (h : Inv app s) : Inv app (onInfo s c) := by
+  unfold onInfo
+  split
+  · exact h
+  · split
+    · exact ⟨h.authUser, h.taskUser, h.seqs, h.authBegun, h.parkedNoAuth, h.uniq, h.done⟩
+    · rename_i a ha
+      split
+      · refine ⟨?_, h.taskUser, h.seqs, ?_, ?_, h.uniq, h.done⟩
+        · intro a' ha'
+          simp only [Option.some.injEq] at ha'
+          subst ha'
+          exact h.authUser a ha
+        · intro a' ha'
+          simp only [Option.some.injEq] at ha'
+          subst ha'
+          exact h.authBegun a ha
+        · intro t ht hs
+          have := h.parkedNoAuth t ht hs
+          rw [ha] at this; cases this
+      · exact ⟨h.authUser, h.taskUser, h.seqs, h.authBegun, h.parkedNoAuth, h.uniq, h.done⟩
+
+theorem onAuthMsg_inv (app : App) (s : St) (h : Inv app s) : Inv app (onAuthMsg s) := by
+  unfold onAuthMsg
+  split
+  · exact h
+  · split
+    · exact ⟨h.authUser, h.taskUser, h.seqs, h.authBegun, h.parkedNoAuth, h.uniq, h.done⟩
+    · exact ⟨h.authUser, h.taskUser, h.seqs, h.authBegun, h.parkedNoAuth, h.uniq, h.done⟩
 
 theorem step_inv (app : App) (s : St) (ev : Ev) (h : Inv app s) : Inv app (step app s ev) := by
   cases ev with
@@ -280,6 +364,8 @@ theorem step_inv (app : App) (s : St) (ev : Ev) (h : Inv app s) : Inv app (step 
     split
     · exact ⟨h.authUser, h.taskUser, h.seqs, h.authBegun, h.parkedNoAuth, h.uniq, h.done⟩
     · exact ⟨h.authUser, h.taskUser, h.seqs, h.authBegun, h.parkedNoAuth, h.uniq, h.done⟩
+  | info c => exact onInfo_inv app s c h
+  | authMsg => exact onAuthMsg_inv app s h
 
 /-- **Access is granted only after a successful credential check for that very user**: for EVERY sequence of
     requests and completions — repetition, method switch, user switch, pipelining while the application is still
@@ -295,44 +381,118 @@ theorem auth_sound (app : App) (evs : List Ev) (u : Nat) (h : (run app evs).comp
     Granted app (run app evs).log u :=
   (run_inv app evs {} (inv_init app)).done u h
 
-/-- every logged check records the application's own verdict for that user and credential -/
-def LogHonest (app : App) (log : List Call) : Prop :=
-  (∀ u c, Call.checkPw u c true ∈ log → app.pwOK u c = true) ∧
-  (∀ ctx u k sg, Call.checkKey ctx u k true sg ∈ log → app.keyOK ctx k = true)
+/-- a logged check records the application's own verdict for that user and credential -/
+def callHonest (app : App) (c : Call) : Prop :=
+  (∀ u cr, c = Call.checkPw u cr true → app.pwOK u cr = true) ∧
+  (∀ ctx u k sg, c = Call.checkKey ctx u k true sg → app.keyOK ctx k = true) ∧
+  (∀ u cr, c = Call.checkChPw u cr true → app.chpwOK u cr = true) ∧
+  (∀ u cr, c = Call.checkHost u cr true true (some true) → app.hostKeyOK cr = true ∧ app.hostUserOK u cr = true) ∧
+  (∀ u, c = Call.kbd u none .accept → app.kbdStart u = .accept) ∧
+  (∀ u r, c = Call.kbd u (some r) .accept → app.kbdNext u r = .accept)
 
-theorem logHonest_append (app : App) (log : List Call) (c : Call) (h : LogHonest app log)
-    (hc : (∀ u cr, c = Call.checkPw u cr true → app.pwOK u cr = true) ∧
-          (∀ ctx u k sg, c = Call.checkKey ctx u k true sg → app.keyOK ctx k = true)) : LogHonest app (log ++ [c]) := by
-  refine ⟨?_, ?_⟩
-  · intro u cr hm
-    simp only [List.mem_append, List.mem_singleton] at hm
-    rcases hm with hm | hm
-    · exact h.1 u cr hm
-    · exact hc.1 u cr hm.symm
-  · intro ctx u k sg hm
-    simp only [List.mem_append, List.mem_singleton] at hm
-    rcases hm with hm | hm
-    · exact h.2 ctx u k sg hm
-    · exact hc.2 ctx u k sg hm.symm
+def LogHonest (app : App) (log : List Call) : Prop := ∀ c ∈ log, callHonest app c
+
+theorem lh_append (app : App) (log : List Call) (c : Call) (h : LogHonest app log) (hc : callHonest app c) :
+    LogHonest app (log ++ [c]) := by
+  intro d hd
+  simp only [List.mem_append, List.mem_singleton] at hd
+  rcases hd with hd | rfl
+  · exact h d hd
+  · exact hc
+
+theorem honest_begin (app : App) (u : Nat) : callHonest app (.begin u) := by
+  refine ⟨?_, ?_, ?_, ?_, ?_, ?_⟩ <;> intros <;> rename_i h <;> cases h
+
+theorem honest_checkPw (app : App) (u c : Nat) : callHonest app (.checkPw u c (app.pwOK u c)) := by
+  refine ⟨?_, ?_, ?_, ?_, ?_, ?_⟩
+  · intro u' c' h
+    simp only [Call.checkPw.injEq] at h
+    obtain ⟨rfl, rfl, h3⟩ := h
+    exact h3
+  all_goals intros; rename_i h; cases h
+
+theorem honest_checkKey (app : App) (ctx u k : Nat) (sg : Option Bool) :
+    callHonest app (.checkKey ctx u k (app.keyOK ctx k) sg) := by
+  refine ⟨?_, ?_, ?_, ?_, ?_, ?_⟩
+  · intros; rename_i h; cases h
+  · intro ctx' u' k' sg' h
+    simp only [Call.checkKey.injEq] at h
+    obtain ⟨rfl, _, rfl, h3, _⟩ := h
+    exact h3
+  all_goals intros; rename_i h; cases h
+
+theorem honest_checkChPw (app : App) (u c : Nat) : callHonest app (.checkChPw u c (app.chpwOK u c)) := by
+  refine ⟨?_, ?_, ?_, ?_, ?_, ?_⟩
+  · intros; rename_i h; cases h
+  · intros; rename_i h; cases h
+  · intro u' c' h
+    simp only [Call.checkChPw.injEq] at h
+    obtain ⟨rfl, rfl, h3⟩ := h
+    exact h3
+  all_goals intros; rename_i h; cases h
+
+theorem honest_checkHost (app : App) (u c : Nat) (sg : Bool) (uo : Option Bool)
+    (huo : uo = none ∨ uo = some (app.hostUserOK u c)) :
+    callHonest app (.checkHost u c (app.hostKeyOK c) sg uo) := by
+  refine ⟨?_, ?_, ?_, ?_, ?_, ?_⟩
+  · intros; rename_i h; cases h
+  · intros; rename_i h; cases h
+  · intros; rename_i h; cases h
+  · intro u' c' h
+    simp only [Call.checkHost.injEq] at h
+    obtain ⟨rfl, rfl, h3, _, h5⟩ := h
+    rcases huo with h0 | h0
+    · rw [h0] at h5; cases h5
+    · rw [h0] at h5
+      simp only [Option.some.injEq] at h5
+      exact ⟨h3, h5⟩
+  all_goals intros; rename_i h; cases h
+
+theorem honest_kbd (app : App) (u : Nat) (r : Option Nat) :
+    callHonest app (.kbd u r (match r with | none => app.kbdStart u | some c => app.kbdNext u c)) := by
+  refine ⟨?_, ?_, ?_, ?_, ?_, ?_⟩
+  · intros; rename_i h; cases h
+  · intros; rename_i h; cases h
+  · intros; rename_i h; cases h
+  · intros; rename_i h; cases h
+  · intro u' h
+    simp only [Call.kbd.injEq] at h
+    obtain ⟨rfl, h2, h3⟩ := h
+    subst h2
+    exact h3
+  · intro u' r' h
+    simp only [Call.kbd.injEq] at h
+    obtain ⟨rfl, h2, h3⟩ := h
+    subst h2
+    exact h3
 
 theorem sendSuccess_log (s : St) : (sendSuccess s).log = s.log := by
   unfold sendSuccess; split <;> rfl
 
-theorem createAuth_log (s : St) (r : Req) : (createAuth s r).log = s.log := by
-  unfold createAuth sendFailure; split <;> (try split) <;> (try split) <;> rfl
+theorem createAuth_honest (app : App) (s : St) (r : Req) (h : LogHonest app s.log) :
+    LogHonest app (createAuth app s r).log := by
+  unfold createAuth
+  split
+  · exact h
+  · split
+    · exact h
+    · split
+      · exact h
+      · exact h
+      · split
+        · exact h
+        · exact lh_append app _ _ h (honest_checkHost app _ _ _ none (Or.inl rfl))
+      · exact h
 
-theorem afterBegin_log (app : App) (s : St) (cu : Nat) (r : Req) : (afterBegin app s cu r).log = s.log := by
+theorem afterBegin_honest (app : App) (s : St) (cu : Nat) (r : Req) (h : LogHonest app s.log) :
+    LogHonest app (afterBegin app s cu r).log := by
   unfold afterBegin
   simp only
   split
-  · exact createAuth_log _ r
-  · exact sendSuccess_log _
+  · exact createAuth_honest app _ r h
+  · rw [sendSuccess_log]; exact h
 
 theorem step_logHonest (app : App) (s : St) (ev : Ev) (h : LogHonest app s.log) : LogHonest app (step app s ev).log := by
-  have hbegin : ∀ u, LogHonest app (s.log ++ [Call.begin u]) := by
-    intro u
-    apply logHonest_append app _ _ h
-    exact ⟨(by intro _ _ hc; cases hc), (by intro _ _ _ _ hc; cases hc)⟩
   cases ev with
   | req r =>
     simp only [step, onReq]
@@ -343,9 +503,9 @@ theorem step_logHonest (app : App) (s : St) (ev : Ev) (h : LogHonest app s.log) 
       · try dsimp only
         split
         · split
-          · exact hbegin r.user
-          · rw [afterBegin_log]; exact hbegin r.user
-        · rw [createAuth_log]; exact h
+          · exact lh_append app _ _ h (honest_begin app r.user)
+          · exact afterBegin_honest app _ _ _ (lh_append app _ _ h (honest_begin app r.user))
+        · exact createAuth_honest app _ r h
   | beginDone k =>
     simp only [step, onBeginDone]
     split
@@ -355,7 +515,7 @@ theorem step_logHonest (app : App) (s : St) (ev : Ev) (h : LogHonest app s.log) 
     · try dsimp only
       split
       · exact h
-      · rw [afterBegin_log]; exact h
+      · exact afterBegin_honest app _ _ _ h
   | valDone k =>
     simp only [step, onValDone]
     split
@@ -366,39 +526,46 @@ theorem step_logHonest (app : App) (s : St) (ev : Ev) (h : LogHonest app s.log) 
       split
       · exact h
       · split
-        · try dsimp only
-          have hl : LogHonest app (s.log ++ [Call.checkPw a.user a.req.cred (app.pwOK a.user a.req.cred)]) := by
-            apply logHonest_append app _ _ h
-            refine ⟨?_, (by intro _ _ _ _ hc; cases hc)⟩
-            intro u cr hc
-            simp only [Call.checkPw.injEq] at hc
-            obtain ⟨rfl, rfl, h3⟩ := hc
-            exact h3
+        · -- password
+          split
+          · exact h
+          · try dsimp only
+            have hl := lh_append app _ _ h (honest_checkPw app a.user a.req.cred)
+            split
+            · rw [sendSuccess_log]; exact hl
+            · exact hl
+        · -- password change
+          split
+          · exact h
+          · try dsimp only
+            have hl := lh_append app _ _ h (honest_checkChPw app a.user a.req.cred)
+            split
+            · rw [sendSuccess_log]; exact hl
+            · exact hl
+        · -- hostbased
+          rename_i sigOK _
+          try dsimp only
+          have hl := lh_append app _ _ h (honest_checkHost app a.user a.req.cred sigOK _ (Or.inr rfl))
           split
           · rw [sendSuccess_log]; exact hl
           · exact hl
-        · try dsimp only
-          have hl : LogHonest app (s.log ++ [Call.checkKey (keyCtx app s a) a.user a.req.cred
-              (app.keyOK (keyCtx app s a) a.req.cred) none]) := by
-            apply logHonest_append app _ _ h
-            refine ⟨(by intro _ _ hc; cases hc), ?_⟩
-            intro ctx u k sg hc
-            simp only [Call.checkKey.injEq] at hc
-            obtain ⟨rfl, _, rfl, h3, _⟩ := hc
-            exact h3
+        · -- keyboard-interactive
+          try dsimp only
+          have hl := lh_append app _ _ h (honest_kbd app a.user a.resp)
+          split
+          · rw [sendSuccess_log]; exact hl
+          · exact hl
+          · exact hl
+        · -- publickey probe
+          try dsimp only
+          have hl := lh_append app _ _ h (honest_checkKey app (keyCtx app s a) a.user a.req.cred none)
           split
           · exact hl
           · exact hl
-        · rename_i sigOK _
+        · -- publickey with signature
+          rename_i sigOK _
           try dsimp only
-          have hl : LogHonest app (s.log ++ [Call.checkKey (keyCtx app s a) a.user a.req.cred
-              (app.keyOK (keyCtx app s a) a.req.cred) (some sigOK)]) := by
-            apply logHonest_append app _ _ h
-            refine ⟨(by intro _ _ hc; cases hc), ?_⟩
-            intro ctx u k sg hc
-            simp only [Call.checkKey.injEq] at hc
-            obtain ⟨rfl, _, rfl, h3, _⟩ := hc
-            exact h3
+          have hl := lh_append app _ _ h (honest_checkKey app (keyCtx app s a) a.user a.req.cred (some sigOK))
           split
           · rw [sendSuccess_log]; exact hl
           · exact hl
@@ -406,26 +573,45 @@ theorem step_logHonest (app : App) (s : St) (ev : Ev) (h : LogHonest app s.log) 
   | other =>
     simp only [step]
     split <;> exact h
+  | info c =>
+    simp only [step, onInfo]
+    split
+    · exact h
+    · split
+      · exact h
+      · split <;> exact h
+  | authMsg =>
+    simp only [step, onAuthMsg]
+    split
+    · exact h
+    · split <;> exact h
 
 theorem run_logHonest (app : App) (evs : List Ev) : LogHonest app (run app evs).log := by
   have : ∀ s : St, LogHonest app s.log → LogHonest app (evs.foldl (step app) s).log := by
     induction evs with
     | nil => intro s hs; exact hs
     | cons ev rest ih => intro s hs; exact ih _ (step_logHonest app s ev hs)
-  exact this {} ⟨(by intro _ _ h; cases h), (by intro _ _ _ _ h; cases h)⟩
+  exact this {} (by intro c hc; cases hc)
 
 /-- **No repetition, interleaving, pipelining, or switch of method or user name grants access otherwise**: if
     the application needs authentication for `u` and accepts no password and no key for `u`, then NO sequence
     of events whatsoever leaves the connection authenticated as `u`. -/
 theorem no_grant_by_sequencing (app : App) (evs : List Ev) (u : Nat) (hn : app.needsAuth u = true)
-    (hpw : ∀ c, app.pwOK u c = false) (hkey : ∀ k, app.keyOK u k = false) :
+    (hpw : ∀ c, app.pwOK u c = false) (hkey : ∀ k, app.keyOK u k = false)
+    (hch : ∀ c, app.chpwOK u c = false) (hhost : ∀ c, app.hostUserOK u c = false)
+    (hk0 : app.kbdStart u ≠ .accept) (hk1 : ∀ r, app.kbdNext u r ≠ .accept) :
     (run app evs).complete ≠ some u := by
   intro h
   have hl := run_logHonest app evs
-  rcases auth_sound app evs u h with hg | ⟨c, hg⟩ | ⟨k, hg⟩
+  rcases auth_sound app evs u h with hg | ⟨c, hg⟩ | ⟨k, hg⟩ | ⟨c, hg⟩ | ⟨c, hg⟩ | ⟨r, hg⟩
   · rw [hn] at hg; cases hg
-  · have := hl.1 u c hg; rw [hpw c] at this; cases this
-  · have := hl.2 u u k _ hg; rw [hkey k] at this; cases this
+  · have := (hl _ hg).1 u c rfl; rw [hpw c] at this; cases this
+  · have := (hl _ hg).2.1 u u k _ rfl; rw [hkey k] at this; cases this
+  · have := (hl _ hg).2.2.1 u c rfl; rw [hch c] at this; cases this
+  · have := ((hl _ hg).2.2.2.1 u c rfl).2; rw [hhost c] at this; cases this
+  · cases r with
+    | none => exact hk0 ((hl _ hg).2.2.2.2.1 u rfl)
+    | some r => exact hk1 r ((hl _ hg).2.2.2.2.2 u r rfl)
 
 /-- a signature that does not verify over this session's identifier and this exact request (wrong session id,
     wrong user, wrong service, wrong key) never grants access, even for an authorised key -/
@@ -449,17 +635,55 @@ theorem post_auth_requests (app : App) (s : St) (r : Req) (u : Nat) (hc : s.comp
     application accepts (or whose authorised key signs this request), processed without interference, ends
     with the connection authenticated as that user — with synchronous or asynchronous `begin_auth`. -/
 theorem client_admitted (app : App) (u c : Nat) (hn : app.needsAuth u = true) :
-    (app.pwOK u c = true →
+    (app.pwOK u c = true → app.pwExpired u c = false →
       (run app [.req ⟨u, .password, c⟩, .beginDone 0, .valDone 0]).complete = some u) ∧
     (app.keyOK u c = true →
-      (run app [.req ⟨u, .pkProbe, c⟩, .beginDone 0, .valDone 0, .req ⟨u, .pkSig true, c⟩, .valDone 1]).complete = some u) := by
-  constructor
-  · intro hp
+      (run app [.req ⟨u, .pkProbe, c⟩, .beginDone 0, .valDone 0, .req ⟨u, .pkSig true, c⟩, .valDone 1]).complete = some u) ∧
+    (app.chpwOK u c = true → app.chpwExpired u c = false →
+      (run app [.req ⟨u, .pwChange, c⟩, .beginDone 0, .valDone 0]).complete = some u) ∧
+    (app.hostKeyOK c = true → app.hostUserOK u c = true →
+      (run app [.req ⟨u, .hostSig true, c⟩, .beginDone 0, .valDone 0]).complete = some u) ∧
+    (app.kbdStart u = .challenge → app.kbdNext u c = .accept →
+      (run app [.req ⟨u, .kbdint, 0⟩, .beginDone 0, .valDone 0, .info c, .valDone 1]).complete = some u) := by
+  refine ⟨?_, ?_, ?_, ?_, ?_⟩
+  · intro hp he
     cases hb : app.beginAsync <;>
-      simp [run, step, onReq, onBeginDone, onValDone, afterBegin, createAuth, sendSuccess, hn, hp, hb]
+      simp [run, step, onReq, onBeginDone, onValDone, afterBegin, createAuth, sendSuccess, hn, hp, he, hb]
   · intro hk
     cases hb : app.beginAsync <;> cases hp : app.perUserKeys <;>
       simp [run, step, onReq, onBeginDone, onValDone, afterBegin, createAuth, sendSuccess, keyCtx, hn, hk, hb, hp]
+  · intro hp he
+    cases hb : app.beginAsync <;>
+      simp [run, step, onReq, onBeginDone, onValDone, afterBegin, createAuth, sendSuccess, hn, hp, he, hb]
+  · intro hk hu
+    cases hb : app.beginAsync <;>
+      simp [run, step, onReq, onBeginDone, onValDone, afterBegin, createAuth, sendSuccess, hn, hk, hu, hb]
+  · intro h0 h1
+    cases hb : app.beginAsync <;>
+      simp [run, step, onReq, onBeginDone, onValDone, onInfo, afterBegin, createAuth, sendSuccess, hn, h0, h1, hb]
+
+/-- a hostbased request whose signature does not verify, or whose host key is not trusted, is refused before the
+    application is even asked about the user -/
+theorem bad_host_signature_never_grants (app : App) (s : St) (u c : Nat) (sg : Bool)
+    (hu : s.username = some u) (hc : s.complete = none) (hbad : (app.hostKeyOK c && sg) = false) :
+    (createAuth app s ⟨u, .hostSig sg, c⟩).complete = none ∧ (createAuth app s ⟨u, .hostSig sg, c⟩).auth = none ∧
+    (createAuth app s ⟨u, .hostSig sg, c⟩).out = s.out ++ [.failure] := by
+  simp [createAuth, hu, hc, hbad, sendFailure]
+
+/-- a method-specific message cannot complete authentication by itself: it either starts the validation of a
+    keyboard-interactive response (the application then decides), is answered UNIMPLEMENTED, or — with no
+    authentication in progress — ends the connection -/
+theorem info_never_grants (s : St) (c : Nat) : (onInfo s c).complete = s.complete ∧ (onAuthMsg s).complete = s.complete := by
+  unfold onInfo onAuthMsg
+  constructor
+  · split
+    · rfl
+    · split
+      · rfl
+      · split <;> rfl
+  · split
+    · rfl
+    · split <;> rfl
 
 /-! ### the defect the repair removed (F1), as a machine-checked witness about the pre-fix transition function -/
 
@@ -481,8 +705,11 @@ theorem old_code_user_switch_witness :
   refine ⟨by decide, ?_, by decide⟩
   intro h
   rw [hlog] at h
-  rcases h with h | ⟨c, h⟩ | ⟨k, h⟩
+  rcases h with h | ⟨c, h⟩ | ⟨k, h⟩ | ⟨c, h⟩ | ⟨c, h⟩ | ⟨r, h⟩
   · simp [witnessApp] at h
+  · simp at h
+  · simp at h
+  · simp at h
   · simp at h
   · simp at h
 
